@@ -311,3 +311,14 @@ func init() {
 		}
 	}
 }
+
+func init() {
+	debugHooks["singleblock"] = func(p *Prog, args []string) {
+		for _, n := range sortedKeys(p.Funcs) {
+			f := p.Funcs[n]
+			if f.Parent() == nil && len(f.Blocks) == 1 && len(f.Blocks[0].Instrs) <= 40 && f.TypeParams().Len() == 0 {
+				fmt.Println(n)
+			}
+		}
+	}
+}
